@@ -318,6 +318,28 @@ def test_patch_oracle():
     v = j(start, ("enter", "unimported-aliased+nonexistent-attr"), raised="builtins.AssertionError", status=st(**la), unchanged=(True,) * N)
     expect(failed(v) == ["C20.restore_after_failed_setup"], "failed set-up, listed lazy target left as mock")
 
+    # only the block's own targets: an attribute that is not listed and was the original stays the original
+    v = j(start, ("enter", "none"), raised=None, status=st(from_import_connect="other", **std), unchanged=same("std-connect", "std-write_pandas", "from-import-connect"), func={"std-connect": "ok", "std-write_pandas": "ok"})
+    bad = [(c, k) for c, k, f, _d in v if f]
+    expect(bad == [("C20.inside.only_own_targets", "not-listed=from-import-connect")], f"target of an earlier block patched again {bad}")
+    v = j(start, ("enter", "unimported-aliased"), raised=None, status=in_la, unchanged=(False,) * N, func=f_la)
+    expect(not any(c == "C20.inside.only_own_targets" and "unimported" in k for c, k, _f, _d in v), "names of a module imported by this very patch() are not judged by only_own_targets")
+    # replay divergence is a verdict that names the operation and what differs
+    t1 = [((), start[1], ("std-connect", "std-write_pandas"), "failed-setup"), ((), start[1], ("std-connect", "std-write_pandas"), "failed-setup")]
+    t_ok = [((), start[1], (), "failed-setup"), (("none",), start[1], (), "-")]
+    h = [("enter", "nonexistent-module"), ("enter", "none")]
+    expect(c20.divergence(h, t_ok, t_ok) is None, "no divergence")
+    d = c20.divergence(h, t_ok, t1)
+    expect(d is not None and d[0] == "op=enter:nonexistent-module,differs=std-connect" and d[1]["step"] == 0, f"divergence leaked {d}")
+    d = c20.divergence(h, t_ok, [t_ok[0], ((), start[1], (), "failed-setup")])
+    expect(d is not None and d[0] == "op=enter:none,differs=open-blocks", f"divergence open blocks {d}")
+    lz2 = st(unimported_module="other")[c20.N_PRE :]
+    d = c20.divergence([("enter", "unimported-module")], [(("unimported-module",), lz2, (), "-")], [(("unimported-module",), start[1], (), "-")])
+    expect(d is not None and d[0] == "op=enter:unimported-module,differs=unimported-module", f"divergence lazy {d}")
+    # an exit with nothing open (possible only after a divergence) is skipped, not judged
+    expect(c20.next_state(start, ("exit", "normal"), {"skipped": True, "status": clean}) == start, "skipped exit keeps the state")
+    expect(c20.judge_patch(start, ("exit", "normal"), {"skipped": True, "status": clean, "before": clean}) == [], "skipped exit not judged")
+
     # state bookkeeping
     s1 = c20.next_state(start, ("enter", "unimported-module"), {"raised": None, "status": st(unimported_module="other", **std)})
     lz = lambda **o: st(**o)[c20.N_PRE :]  # noqa: E731
